@@ -293,6 +293,7 @@ impl C01 {
             if let crate::convert::Conv::Ok(m) = crate::convert::convert_ctehexml_fast(&full) {
                 let one_sided = rng.usize(3); // 0 both, 1 only walls, 2 only windows
                 let mut k = vec!["###;Datos para Factor de Perdidas".to_string()];
+                let mut extra_kinds = 0;
                 if one_sided != 2 {
                     for w in m.walls.iter().take(12) {
                         k.push(format!("Muro;{};{:.2};{:.2};1.00;Fachada;S ;cons", w.name, w.geometry.polygon.len() as f32 * 3.0, rng.dec(0.1, 3.0, 2)));
@@ -303,6 +304,11 @@ impl C01 {
                         k.push(format!("Ventana;{};{:.2};{:.2};S ;10.00;0.79;-1.00;1.00;50.00;hueco", w.name, w.geometry.width * w.geometry.height, rng.dec(0.8, 5.0, 2)));
                     }
                 }
+                // element lines of a kind this reader does not know (a summary line, a newer HULC's element class)
+                if rng.chance(0.3) {
+                    k.push(rng.pick(&["Muros;resumen;120,00;0,45;1,00", "Ventanas;resumen;24,50;2,10", "MuroCortina;MC_01;15,00;1,80;1,00;Fachada;S ;cons", "PPTT_LINEAL;12,50;0,10;frente_forjado"]).to_string());
+                    extra_kinds += 1;
+                }
                 k.push("Coeficiente K = ;0,500".into());
                 if one_sided != 1 {
                     for w in m.windows.iter().take(8) {
@@ -311,6 +317,9 @@ impl C01 {
                     }
                 }
                 std::fs::write(d.join("KyGananciasSolares.txt"), k.join("\n")).ok()?;
+                if extra_kinds > 0 {
+                    let _ = std::fs::write(d.join(".has_unknown_kyg_lines"), "");
+                }
                 if rng.chance(0.7) && one_sided != 2 {
                     let mut t = vec!["Nombre".to_string(), " A U p f fv angNorte tilt tipo codigo0 codigo1".to_string(), format!("{} 0", m.walls.len())];
                     for w in &m.walls {
